@@ -51,7 +51,7 @@ class C12(Config):
               "From V.C12 Require Import Model Spec Lit Corr Wf.\n"
               "Local Open Scope Z_scope.")
     bin = "c12"
-    n_tags = 71
+    n_tags = 95
     classes = {}
     shard_size = 400
     rule = ("TransactionRequest::{from_uri,to_uri,new,from_indexed,total}, Payment::new, memo_{to,from}_base64 "
@@ -62,7 +62,11 @@ class C12(Config):
             "payment's parameters - address last, amount/memo before the address - for transparent, TEX, Sapling and unified "
             "recipients at index 0 and later indices with zero/non-zero amounts and memos; long malformed URIs with raw "
             "multi-byte UTF-8 of width 2/3/4 at every offset around byte 96 of every possible unparsed remainder); the model receives the "
-            "strings and a per-case table classifying every address string with the real zcash_address")
+            "strings and a per-case table giving, for every address string, its canonical encoding and shape (kind, receiver "
+            "typecodes, read through the conversion API); the memo / transparent-only flags are computed by the model. Unified "
+            "recipients of the receiver shapes {P2PKH,Unknown} {P2SH,Unknown,Unknown} {P2PKH,Sapling} {Orchard,Unknown} and others "
+            "on every network with amounts 0 / 1 zat / 1 ZEC, memo present/absent, in Payment::new, from_uri and new; the real "
+            "can_receive_memo / is_transparent_only compared with the model's on every pooled address (AddrFlags)")
     trusted_base = [
         "Coq 8.16.1 kernel, vm_compute (no native_compute)",
         "axioms: none (every theorem is closed under the global context)",
